@@ -14,7 +14,7 @@ import PdtVerif.Model.Beam
 * `Score.apart`, `sepB` — "this selection is decided by a margin of more than `m`", the hypothesis
   of the skeleton-stability theorems.
 
-Core Lean only (the driver evaluates `chain`, `completeFrom` and `sepB`).
+Core Lean only (the driver evaluates `chain`, `completeFrom` and `sepB` - the latter through `sepFast`).
 -/
 namespace PdtVerif.Beam
 
@@ -72,5 +72,23 @@ def sepB (m : Rat) (c : List Score) (inds : List Nat) : Bool :=
   inds.all fun i => (c.getD i none).isNone || (List.range c.length).all fun j =>
     j == i || Score.apart m (c.getD i none) (c.getD j none)
       || Score.apart m (c.getD j none) (c.getD i none)
+
+/-- `x` lies outside `[lo, hi]` (`-inf` lies outside every such interval). -/
+def Score.clear (lo hi : Rat) : Score → Bool
+  | none => true
+  | some x => decide (x < lo) || decide (hi < x)
+
+/-- `sepB` evaluated in ONE pass over the candidates per selected index, with the two bounds `c[i] - m`,
+`c[i] + m` computed once (`sepB` looks every candidate up by its position, which is quadratic on a list -
+minutes for the 2^15 candidates of a large-vocabulary case - and adds `m` twice per pair). Equal to `sepB`
+on every input (`sepFast_eq`, `Lemmas/BeamStable.lean`; `C04_sepFast_eq`); this is what the driver runs. -/
+def sepFast (m : Rat) (c : List Score) (inds : List Nat) : Bool :=
+  inds.all fun i =>
+    match c.getD i none with
+    | none => true
+    | some v =>
+      let lo := v - m
+      let hi := v + m
+      c.zipIdx.all fun p => p.2 == i || Score.clear lo hi p.1
 
 end PdtVerif.Beam
